@@ -23,6 +23,7 @@ type c09Key struct {
 type monC09 struct {
 	Budget  [2]int
 	Refresh int
+	Forge   int // remaining injections of a data message with current key ids and a wrong MAC
 	Keys    [2][]c09Key
 	Epoch   [2]int
 	NSent   int
@@ -113,14 +114,16 @@ func c09StillAccepts(p *verifPrincipal, k c09Key) bool {
 }
 
 func verifC09Sys(id string, seed int64) *verifSys {
-	var v, sa, sb, refresh int
-	if _, err := fmt.Sscanf(id, "v%d/S%d-%d/R%d", &v, &sa, &sb, &refresh); err != nil {
-		return nil
+	var v, sa, sb, refresh, forge int
+	if _, err := fmt.Sscanf(id, "v%d/S%d-%d/R%d/F%d", &v, &sa, &sb, &refresh, &forge); err != nil {
+		if _, err := fmt.Sscanf(id, "v%d/S%d-%d/R%d", &v, &sa, &sb, &refresh); err != nil {
+			return nil
+		}
 	}
 	sys := &verifSys{Prop: "C09", ID: id, Seed: seed}
 	sys.Init = func() *verifWorld {
 		w := verifEstablished(seed, v, 0)
-		w.Mon = &monC09{Budget: [2]int{sa, sb}, Refresh: refresh}
+		w.Mon = &monC09{Budget: [2]int{sa, sb}, Refresh: refresh, Forge: forge}
 		c09Learn(w, 0)
 		c09Learn(w, 1)
 		w.P[0].Rec.take()
@@ -138,6 +141,14 @@ func verifC09Sys(id string, seed int64) *verifSys {
 		for i := 0; i < 2; i++ {
 			if m.Budget[i] > 0 {
 				evs = append(evs, verifEv{K: "send", I: i})
+			}
+		}
+		if m.Forge > 0 {
+			// every key pair the receiver would currently consider: (current|previous) x (current|previous)
+			for i := 0; i < 2; i++ {
+				for j := 1; j <= 4; j++ {
+					evs = append(evs, verifEv{K: "forge", I: i, J: j})
+				}
 			}
 		}
 		if m.Refresh > 0 && len(w.Q[0])+len(w.Q[1]) == 0 {
@@ -188,6 +199,16 @@ func verifC09Sys(id string, seed int64) *verifSys {
 			k := m.Budget[e.I]
 			m.Budget[e.I]--
 			r = p.Send([]byte(fmt.Sprintf("m%d-%d", e.I, k)))
+		case "forge":
+			// a rejected message (current key ids of the receiver's previous/current pair, wrong MAC) owes and forfeits nothing
+			m.Forge--
+			c := p.C
+			our, their := c.keys.ourKeyID-uint32((e.J-1)%2), c.keys.theirKeyID-uint32((e.J-1)/2)
+			r = p.Receive(c09Forge(c, our, their, []byte("a wrong key 12345678")))
+			if r.HasPln || verifAccepted(r) {
+				fs = append(fs, verifFinding{"C09:forged-message-accepted", "a data message with a wrong MAC was accepted"})
+			}
+			r.Out = nil // error replies are not part of this exploration
 		case "refresh":
 			m.Refresh--
 			verifTick(w.P[0].C)
@@ -280,11 +301,11 @@ func init() {
 		Level: "model_checking",
 		Build: verifC09Sys,
 		Run: func(r *verifReport) {
-			r.Rule = "all interleavings of Send/deliver of two parties over FIFO queues (per-side budgets, incl. one-directional streams) and an optional refresh while encrypted; the monitor recomputes every receiving MAC key each party can form from the DH keys it holds; safety on EVERY emitted data message: each disclosed value is a receiving MAC key of the discloser, and on a clone of the discloser taken right after the send a forged message for that key pair with a fresh counter and a correct MAC under the disclosed key is rejected; liveness at every maximal path after one flush message each way: every key that authenticated an accepted message and whose pair is retired (same behavioural probe) has been disclosed"
+			r.Rule = "all interleavings of Send/deliver of two parties over FIFO queues (per-side budgets, incl. one-directional streams) an optional refresh while encrypted, and injected data messages with current key ids and a wrong MAC; the monitor recomputes every receiving MAC key each party can form from the DH keys it holds; safety on EVERY emitted data message: each disclosed value is a receiving MAC key of the discloser, and on a clone of the discloser taken right after the send a forged message for that key pair with a fresh counter and a correct MAC under the disclosed key is rejected; liveness at every maximal path after one flush message each way: every key that authenticated an accepted message and whose pair is retired (same behavioural probe) has been disclosed"
 			r.Assumptions = []string{"MAC keys are recomputed with the package's own key-derivation function from the DH keys found in the conversations (not an independent implementation)", "End() is not part of this exploration: the keys of an ended session are dropped, not retired by rotation"}
-			ids := []string{"v3/S3-3/R0", "v2/S2-2/R0", "v3/S5-0/R0", "v3/S1-4/R0", "v3/S2-2/R1"}
+			ids := []string{"v3/S3-3/R0", "v2/S2-2/R0", "v3/S5-0/R0", "v3/S1-4/R0", "v3/S2-2/R1", "v3/S2-2/R0/F1", "v2/S2-1/R0/F1"}
 			if r.Tier == "thorough" {
-				ids = []string{"v3/S4-4/R0", "v2/S4-4/R0", "v3/S6-0/R0", "v2/S0-6/R0", "v3/S2-5/R0", "v3/S3-3/R1", "v2/S2-2/R1"}
+				ids = []string{"v3/S4-4/R0", "v2/S4-4/R0", "v3/S6-0/R0", "v2/S0-6/R0", "v3/S2-5/R0", "v3/S3-3/R1", "v2/S2-2/R1", "v3/S3-3/R0/F1", "v2/S2-2/R0/F2", "v3/S2-2/R1/F1"}
 			}
 			for _, id := range ids {
 				r.explore(verifC09Sys(id, r.Seed))
